@@ -13,6 +13,8 @@
 //                  (incl. the collision inputs around the modulus) x nbsimu: run twice + once in a fresh child:
 //                  bit-identical; non-congruent seeds differ; ranks differ; the degenerate seed 20000159 is only
 //                  required to be reproducible and not to crash / hang.
+//   history        (E2, depth 3) for every turning-bands structure type (single / nested) and every other simulator as subject A and
+//                  a menu of intervening simulations X: A alone in a fresh process == (X; A) in a fresh process == A; X; A here.
 //   gibbs_bounds   (E1) gibbs_sampler on every assignment of a bounds menu to 4 samples x models x flags x nvar x
 //                  nbsimu x seeds: every Gaussian value lies within its [lower, upper].
 //   pgs_facies     (E1) conditional simpgs for every facies vector on 4 data x rules x nbsimu x seeds x target kind:
@@ -156,6 +158,27 @@ VF_PART(bounded_draws)
 
 // =========================================================================================================
 // common helpers for the E1 parts
+
+// ---------------------------------------------------------------------------------------------------------
+// A PRISTINE process.  fork() alone is not enough: the child inherits every function-local static / file static the
+// parent's earlier cases left behind (measured: a stale `coeff` of _power1DInit made "fresh child" runs agree with a
+// history-dependent parent).  run_pristine() forks and EXECs this very binary with "--pristine <what...> --fd <n>":
+// the new image has executed no library code at all; it computes the requested result, writes it to the pipe and exits.
+static std::string g_exe;
+static ChildResult run_pristine(const std::vector<std::string>& what, double timeout_s = 30.)
+{
+  return run_child([&](int wfd) {
+    std::vector<std::string> a{g_exe, "--pristine"};
+    for (auto& w : what) a.push_back(w);
+    a.push_back("--fd");
+    a.push_back(std::to_string(wfd));
+    std::vector<char*> av;
+    for (auto& x : a) av.push_back((char*)x.c_str());
+    av.push_back(nullptr);
+    execv(g_exe.c_str(), av.data());
+    return 93;  // exec failed
+  }, timeout_s, 0);
+}
 static std::vector<std::vector<double>> result_cols(Db* db, int ncol0)
 {
   std::vector<std::vector<double>> R;
@@ -180,27 +203,37 @@ static bool same_bits(const std::vector<double>& a, const std::vector<double>& b
 static bool seeds_equivalent(int s1, int s2) { return lcg_next_seed32(s1) == lcg_next_seed32(s2) || (s1 % M) == (s2 % M); }
 static bool seed_degenerate(int s) { return lcg_next_seed32(s) == 0 || (s % M) == 0; }
 
-static Model* model_menu(int im, int nvar)
+// fr / fs multiply every range / sill: "the same model but for its scale (resp. sill)" for the history part
+static Model* model_menu(int im, int nvar, double fr = 1., double fs = 1.)
 {
   Model* m = nullptr;
+  auto S = [&](std::initializer_list<double> v) { VectorDouble r; for (double x : v) r.push_back(x * fs); return r; };
   if (nvar == 1)
   {
     switch (im)
     {
-      case 0: m = Model::createFromParam(ECov::SPHERICAL, 3., 1.); break;
-      case 1: m = Model::createFromParam(ECov::EXPONENTIAL, 2., 2.); m->addCovFromParam(ECov::NUGGET, 0., 0.25); break;
-      case 2: m = Model::createFromParam(ECov::CUBIC, 4., 0.5); m->setMeans({2.}); break;
-      default: m = Model::createFromParam(ECov::GAUSSIAN, 1.5, 1.); m->addCovFromParam(ECov::SPHERICAL, 5., 0.5); break;
+      case 0: m = Model::createFromParam(ECov::SPHERICAL, 3. * fr, 1. * fs); break;
+      case 1: m = Model::createFromParam(ECov::EXPONENTIAL, 2. * fr, 2. * fs); m->addCovFromParam(ECov::NUGGET, 0., 0.25 * fs); break;
+      case 2: m = Model::createFromParam(ECov::CUBIC, 4. * fr, 0.5 * fs); m->setMeans({2.}); break;
+      case 3: m = Model::createFromParam(ECov::GAUSSIAN, 1.5 * fr, 1. * fs); m->addCovFromParam(ECov::SPHERICAL, 5. * fr, 0.5 * fs); break;
+      case 4: m = Model::createFromParam(ECov::MATERN, 3. * fr, 1. * fs, 1.5); break;   // spectral 1-D process
+      case 5: m = Model::createFromParam(ECov::MATERN, 3. * fr, 1.5 * fs, 0.3); break;  // migration 1-D process
+      case 6: m = Model::createFromParam(ECov::STABLE, 3. * fr, 1. * fs, 1.5); break;
+      default: m = Model::createFromParam(ECov::STABLE, 2. * fr, 0.75 * fs, 0.7); m->addCovFromParam(ECov::SINCARD, 4. * fr, 0.25 * fs); break;
     }
   }
   else
   {
     switch (im)
     {
-      case 0: m = Model::createFromParam(ECov::SPHERICAL, 3., 1., 1., VectorDouble(), {2., 1., 1., 1.5}); break;
-      case 1: m = Model::createFromParam(ECov::EXPONENTIAL, 2., 1., 1., VectorDouble(), {1., -0.5, -0.5, 2.}); m->addCovFromParam(ECov::NUGGET, 0., 1., 1., VectorDouble(), {0.25, 0., 0., 0.5}); break;
-      case 2: m = Model::createFromParam(ECov::CUBIC, 4., 1., 1., VectorDouble(), {0.5, 0.25, 0.25, 1.}); m->setMeans({2., -1.}); break;
-      default: m = Model::createFromParam(ECov::SPHERICAL, 5., 1., 1., VectorDouble(), {1., 0.5, 0.5, 1.}); m->addCovFromParam(ECov::EXPONENTIAL, 1.5, 1., 1., VectorDouble(), {0.5, -0.25, -0.25, 0.75}); break;
+      case 0: m = Model::createFromParam(ECov::SPHERICAL, 3. * fr, 1., 1., VectorDouble(), S({2., 1., 1., 1.5})); break;
+      case 1: m = Model::createFromParam(ECov::EXPONENTIAL, 2. * fr, 1., 1., VectorDouble(), S({1., -0.5, -0.5, 2.})); m->addCovFromParam(ECov::NUGGET, 0., 1., 1., VectorDouble(), S({0.25, 0., 0., 0.5})); break;
+      case 2: m = Model::createFromParam(ECov::CUBIC, 4. * fr, 1., 1., VectorDouble(), S({0.5, 0.25, 0.25, 1.})); m->setMeans({2., -1.}); break;
+      case 3: m = Model::createFromParam(ECov::SPHERICAL, 5. * fr, 1., 1., VectorDouble(), S({1., 0.5, 0.5, 1.})); m->addCovFromParam(ECov::EXPONENTIAL, 1.5 * fr, 1., 1., VectorDouble(), S({0.5, -0.25, -0.25, 0.75})); break;
+      case 4: m = Model::createFromParam(ECov::MATERN, 3. * fr, 1., 1.5, VectorDouble(), S({1., 0.5, 0.5, 1.})); break;
+      case 5: m = Model::createFromParam(ECov::MATERN, 3. * fr, 1., 0.3, VectorDouble(), S({1.5, -0.5, -0.5, 1.})); break;
+      case 6: m = Model::createFromParam(ECov::STABLE, 3. * fr, 1., 1.5, VectorDouble(), S({1., 0.25, 0.25, 0.5})); break;
+      default: m = Model::createFromParam(ECov::STABLE, 2. * fr, 1., 0.7, VectorDouble(), S({0.75, 0.25, 0.25, 1.})); m->addCovFromParam(ECov::SINCARD, 4. * fr, 1., 1., VectorDouble(), S({0.25, 0., 0., 0.25})); break;
     }
   }
   return m;
@@ -230,7 +263,7 @@ VF_PART(simtub_cond)
 {
   defineDefaultSpace(ESpaceType::RN, 2);
   Space sp;
-  sp.axis("target", 2).axis("data", 3).axis("model", 4).axis("neigh", 2).axis("nbsimu", 3).axis("seed", 3).axis("nvar", 2).axis("nbtuba", 2);
+  sp.axis("target", 2).axis("data", 3).axis("model", 8).axis("neigh", 2).axis("nbsimu", 3).axis("seed", 3).axis("nvar", 2).axis("nbtuba", 2);
   const int seeds[3] = {12345, 1, 20000158};
   for_each_case(C, sp, [&](uint64_t id, const std::vector<int>& ix) {
     bool pt = ix[0] == 1;
@@ -338,8 +371,11 @@ static const char* simname[NSIM] = {"simtub-nc-grid", "simtub-nc-points", "simtu
 static double g_spde_cond_dev = -1.;
 
 // returns error code; R = all columns added to the output Db
-static int run_sim(int kind, int seed, int nbsimu, std::vector<std::vector<double>>& R)
+// variant: 0 = reference inputs; 1 = every range x 1.75; 2 = every sill x 2.5; 3 = other auxiliary inputs (PGS: other
+// proportions and rule; Gibbs: other bounds; Cholesky: other matrix); used by the history part as intervening activity
+static int run_sim(int kind, int seed, int nbsimu, std::vector<std::vector<double>>& R, int variant = 0)
 {
+  const double fr = variant == 1 ? 1.75 : 1., fs = variant == 2 ? 2.5 : 1.;
   defineDefaultSpace(ESpaceType::RN, 2);
   int err = -99;
   R.clear();
@@ -347,7 +383,7 @@ static int run_sim(int kind, int seed, int nbsimu, std::vector<std::vector<doubl
   {
     case SIM_TUB_NC_GRID:
     {
-      Model* m = model_menu(1, 1);
+      Model* m = model_menu(1, 1, fr, fs);
       DbGrid* g = DbGrid::create({4, 3});
       int n0 = g->getColumnNumber();
       err = simtub(nullptr, g, m, nullptr, nbsimu, seed, 10);
@@ -357,7 +393,7 @@ static int run_sim(int kind, int seed, int nbsimu, std::vector<std::vector<doubl
     }
     case SIM_TUB_NC_PTS:
     {
-      Model* m = model_menu(3, 2);
+      Model* m = model_menu(3, 2, fr, fs);
       std::vector<double> tx, ty;
       point_targets(tx, ty);
       Db* d = make_db({tx, ty}, {"x1", "x2"}, {"x1", "x2"});
@@ -370,7 +406,7 @@ static int run_sim(int kind, int seed, int nbsimu, std::vector<std::vector<doubl
     case SIM_TUB_COND:
     case SIM_BAYES:
     {
-      Model* m = model_menu(0, 1);
+      Model* m = model_menu(0, 1, fr, fs);
       if (kind == SIM_BAYES) m->setDriftIRF(0);
       DataSet D = data_menu(2);
       Db* din = make_db_xz({D.x, D.y}, {D.z1});
@@ -390,7 +426,7 @@ static int run_sim(int kind, int seed, int nbsimu, std::vector<std::vector<doubl
     }
     case SIM_FFT:
     {
-      Model* m = model_menu(0, 1);
+      Model* m = model_menu(0, 1, fr, fs);
       DbGrid* g = DbGrid::create({8, 8});
       SimuFFTParam param(true, 0.1);
       int n0 = g->getColumnNumber();
@@ -402,8 +438,9 @@ static int run_sim(int kind, int seed, int nbsimu, std::vector<std::vector<doubl
     case SIM_GIBBS:
     case SIM_GIBBS_MM:
     {
-      Model* m = Model::createFromParam(ECov::EXPONENTIAL, 4., 1.);
-      Db* db = make_db({{0, 1, 2, 0, 1, 2}, {0, 0, 0, 1, 1, 1}, {-0.5, TEST, 1., 4., -8, TEST}, {0.5, 0.2, TEST, 5., -7, TEST}}, {"x1", "x2", "lo", "up"}, {"x1", "x2", "lower1", "upper1"});
+      Model* m = Model::createFromParam(ECov::EXPONENTIAL, 4. * fr, 1. * fs);
+      double sh = variant == 3 ? 0.25 : 0.;
+      Db* db = make_db({{0, 1, 2, 0, 1, 2}, {0, 0, 0, 1, 1, 1}, {-0.5 + sh, TEST, 1., 4., -8, TEST}, {0.5 + sh, 0.2, TEST, 5., -7 + sh, TEST}}, {"x1", "x2", "lo", "up"}, {"x1", "x2", "lower1", "upper1"});
       int n0 = db->getColumnNumber();
       err = gibbs_sampler(db, m, nbsimu, seed, 5, 20, false, false, kind == SIM_GIBBS_MM, false, true, 0, 5., false, false, false);
       R = result_cols(db, n0);
@@ -415,7 +452,7 @@ static int run_sim(int kind, int seed, int nbsimu, std::vector<std::vector<doubl
     {
       // simulateSPDE has no seed argument: the realisation is a function of the generator state at the call, so
       // "same inputs and seed" = law_set_random_seed(seed) right before the call (as tests/cpp/test_SPDEAPI.cpp does)
-      Model* m = Model::createFromParam(ECov::MATERN, 2., 1.5, 1.);
+      Model* m = Model::createFromParam(ECov::MATERN, 2. * fr, 1.5 * fs, 1.);
       DbGrid* g = DbGrid::create({3, 3});
       MeshETurbo* mesh = MeshETurbo::create({7, 7}, {1., 1.}, {-2., -2.});
       DataSet D = data_menu(1);  // data at (0,0), (2,1), (1,2) on nodes and (0.5,1.5) off node
@@ -442,7 +479,7 @@ static int run_sim(int kind, int seed, int nbsimu, std::vector<std::vector<doubl
     }
     case SIM_SPECTRAL:
     {
-      Model* m = Model::createFromParam(ECov::EXPONENTIAL, 2., 1.5);
+      Model* m = Model::createFromParam(ECov::EXPONENTIAL, 2. * fr, 1.5 * fs);
       std::vector<double> tx, ty;
       point_targets(tx, ty);
       Db* d = make_db({tx, ty}, {"x1", "x2"}, {"x1", "x2"});
@@ -458,7 +495,7 @@ static int run_sim(int kind, int seed, int nbsimu, std::vector<std::vector<doubl
       const int n = 4;
       const double B[16] = {1., 0., 0., 0., 0.5, 1.25, 0., 0., 0.25, -0.5, 1., 0., -0.125, 0.75, 0.5, 0.75};
       MatrixSquareSymmetric M(n);
-      for (int i = 0; i < n; i++) for (int j = 0; j < n; j++) { double v = 0; for (int k = 0; k < n; k++) v += B[i * n + k] * B[j * n + k]; M.setValue(i, j, v); }
+      for (int i = 0; i < n; i++) for (int j = 0; j < n; j++) { double v = 0; for (int k = 0; k < n; k++) v += B[i * n + k] * B[j * n + k]; M.setValue(i, j, v * fs + (variant == 3 && i == j ? 0.5 : 0.)); }
       MatrixSquareSymmetricSim S(&M, false);
       err = S.isEmpty() ? 1 : 0;
       law_set_random_seed(seed);
@@ -473,10 +510,10 @@ static int run_sim(int kind, int seed, int nbsimu, std::vector<std::vector<doubl
     case SIM_PGS_NC:
     case SIM_PGS_COND:
     {
-      Model* m1 = Model::createFromParam(ECov::EXPONENTIAL, 4., 1.);
-      Model* m2 = Model::createFromParam(ECov::SPHERICAL, 3., 1.);
-      Rule* rule = Rule::createFromNames({"S", "T", "F1", "F2", "F3"});
-      RuleProp* rp = RuleProp::createFromRule(rule, {0.2, 0.5, 0.3});
+      Model* m1 = Model::createFromParam(ECov::EXPONENTIAL, 4. * fr, 1. * fs);
+      Model* m2 = Model::createFromParam(ECov::SPHERICAL, 3. * fr, 1. * fs);
+      Rule* rule = variant == 3 ? Rule::createFromNames({"S", "F1", "T", "F2", "F3"}) : Rule::createFromNames({"S", "T", "F1", "F2", "F3"});
+      RuleProp* rp = variant == 3 ? RuleProp::createFromRule(rule, {0.5, 0.2, 0.3}) : RuleProp::createFromRule(rule, {0.2, 0.5, 0.3});
       NeighUnique* nu = NeighUnique::create();
       Db* din = kind == SIM_PGS_COND ? make_db_xz({{0, 2, 1, 3}, {0, 1, 2, 3}}, {{1, 2, 3, 2}}) : nullptr;
       DbGrid* g = DbGrid::create({4, 4});
@@ -503,12 +540,8 @@ VF_PART(repro)
     std::string desc = std::string(simname[kind]) + " seed=" + std::to_string(seed) + " nbsimu=" + std::to_string(nbsimu);
     bool degenerate = seed_degenerate(seed);
     // fresh child first (also protects this process against a hang / crash on the degenerate seed)
-    ChildResult cr = run_child([&](int wfd) {
-      std::vector<std::vector<double>> R;
-      int err = run_sim(kind, seed, nbsimu, R);
-      child_write(wfd, ser(err, R));
-      return 0;
-    }, 20., 2048);
+    std::vector<std::string> req{"repro", std::to_string(kind), std::to_string(seed), std::to_string(nbsimu)};
+    ChildResult cr = run_pristine(req);
     C.eval();
     if (!cr.clean() || cr.code != 0)
     {
@@ -522,7 +555,7 @@ VF_PART(repro)
     if (degenerate)
     {
       // only required to be reproducible and not to crash: second fresh child
-      ChildResult c2 = run_child([&](int wfd) { std::vector<std::vector<double>> R; int err = run_sim(kind, seed, nbsimu, R); child_write(wfd, ser(err, R)); return 0; }, 20., 2048);
+      ChildResult c2 = run_pristine(req);
       bool same = c2.clean() && c2.data == cr.data;
       C.outcome(same ? "degenerate-seed:reproducible" : "degenerate-seed:not-reproducible");
       if (!same) C.violation(std::string("fixed-point-seed:") + simname[kind] + ":not-reproducible", desc + ": two fresh processes disagree", kase);
@@ -577,6 +610,174 @@ VF_PART(repro)
       if (same) C.violation(std::string("repro:") + simname[kind] + ":seeds-identical", desc + ": seed " + std::to_string(sd2) + " gives bit-identical results", kase);
     }
     if (id % 13 == 0) C.sample("{\"id\":" + kase + ",\"simulator\":" + jstr(simname[kind]) + ",\"seed\":" + std::to_string(seed) + ",\"nbsimu\":" + std::to_string(nbsimu) + ",\"columns\":" + std::to_string(R1.size()) + "}");
+  });
+}
+
+// =========================================================================================================
+// history : a simulation is a function of its inputs and seed, NOT of what the process simulated before.
+// Hidden state left behind by an earlier call (function-local `static` caches in CalcSimuTurningBands::_power1DInit /
+// _spline1DInit, file statics of src/Core/simtub.cpp such as ModCat / GIBBS_RHO, the generator) is flushed out by making the
+// intervening activity an axis:  for every subject simulation A and every intervening simulation X of a menu
+//       fresh process:  A           -> r0
+//       fresh process:  X ; A       -> rX
+//       this process :  A ; X ; A   -> r1, r2
+// and r0 == rX == r1 == r2 bit for bit is required.  X differs from A by exactly one thing (only the range / scale, only the
+// sill, only the third parameter, another structure type, another nbtuba, another support, a nested variant, nbsimu) or is
+// another simulator.
+//  Part A (tb_type x nested x intervener): turning bands with EVERY structure type CalcSimuTurningBands::_initializeSeedBands
+//  accepts, single and nested behind a spherical structure (so that the first band of the structure is not band 0).
+struct TbType { ECov type; double range, param, param2; const char* name; };
+static std::vector<TbType> tb_types()
+{
+  return {
+    {ECov::NUGGET, 0., 1., 1., "NUGGET"}, {ECov::EXPONENTIAL, 2., 1., 1., "EXPONENTIAL"}, {ECov::SPHERICAL, 2., 1., 1., "SPHERICAL"}, {ECov::CUBIC, 2., 1., 1., "CUBIC"},
+    {ECov::GAUSSIAN, 2., 1., 1., "GAUSSIAN"}, {ECov::SINCARD, 2., 1., 1., "SINCARD"}, {ECov::BESSELJ, 2., 1., 2., "BESSELJ"},
+    {ECov::MATERN, 2., 1.5, 2.5, "MATERN>0.5"}, {ECov::MATERN, 2., 0.3, 0.4, "MATERN<=0.5"}, {ECov::STABLE, 2., 1.5, 1.25, "STABLE>1"}, {ECov::STABLE, 2., 0.7, 0.5, "STABLE<=1"},
+    {ECov::POWER, 2., 1.5, 0.75, "POWER"}, {ECov::SPLINE_GC, 2., 1., 1., "SPLINE_GC"}, {ECov::LINEAR, 2., 1., 1., "LINEAR"},
+    {ECov::ORDER1_GC, 2., 1., 1., "ORDER1_GC"}, {ECov::ORDER3_GC, 2., 1., 1., "ORDER3_GC"}, {ECov::ORDER5_GC, 2., 1., 1., "ORDER5_GC"},
+  };
+}
+static Model* tb_model(const TbType& T, bool nested, double fr, double fs, bool otherParam)
+{
+  double p = otherParam ? T.param2 : T.param;
+  Model* m;
+  if (!nested) m = Model::createFromParam(T.type, T.range * fr, 1. * fs, p);
+  else
+  {
+    m = Model::createFromParam(ECov::SPHERICAL, 3., 0.5);
+    if (m != nullptr) m->addCovFromParam(T.type, T.range * fr, 1. * fs, p);
+  }
+  return m;
+}
+// one turning-bands run described by (type, nested, fr, fs, otherParam, nbtuba, grid support, nbsimu)
+struct TbRun { int it; bool nested; double fr, fs; bool op; int nbtuba; bool grid; int nbsimu; };
+static std::string tb_exec(const TbRun& r)
+{
+  defineDefaultSpace(ESpaceType::RN, 2);
+  std::vector<TbType> TT = tb_types();
+  Model* m = tb_model(TT[r.it], r.nested, r.fr, r.fs, r.op);
+  if (m == nullptr) return "no-model";
+  Db* d;
+  if (r.grid) d = DbGrid::create({3, 3});
+  else { std::vector<double> tx, ty; point_targets(tx, ty); d = make_db({tx, ty}, {"x1", "x2"}, {"x1", "x2"}); }
+  int n0 = d->getColumnNumber();
+  int err = simtub(nullptr, d, m, nullptr, r.nbsimu, 12345, r.nbtuba);
+  std::vector<std::vector<double>> R = result_cols(d, n0);
+  delete d; delete m;
+  return std::to_string(err) + "#" + std::to_string(R.size()) + "#" + bits(R);
+}
+static const char* tb_xname[] = {"same type, range x1.75", "same type, sill x2.5", "same type, other third parameter", "other structure type", "same model, nbtuba 7",
+                                 "same model, other support (grid <-> points)", "nested<->single, range x1.75", "same type range x1.75, nbsimu 2", "simfft", "gibbs_sampler", "conditional simpgs (other rule)"};
+static const int TB_NX = 11;
+
+struct HistCase { bool valid = false, skip = false; std::function<std::string()> runA, runX; std::string descA, descX, key; };
+static HistCase hist_case(const std::vector<int>& ix)
+{
+  HistCase H;
+  std::vector<TbType> TT = tb_types();
+  int NT = (int)TT.size();
+  if (ix[0] == 0)
+  {
+    // ---- block 0: turning bands, every structure type
+    int it = ix[1] % NT;
+    bool nested = ix[1] >= NT;
+    TbRun A{it, nested, 1., 1., false, 5, ix[3] == 1, 1};  // subject on 11 points or on a 3x3 grid (_simulatePoint / _simulateGrid)
+    TbRun X = A;
+    switch (ix[2])
+    {
+      case 0: X.fr = 1.75; break;
+      case 1: X.fs = 2.5; break;
+      case 2: X.op = true; if (TT[it].param2 == TT[it].param) H.skip = true; break;
+      case 3: X.it = (TT[it].type == ECov::SPHERICAL) ? 1 : 2; break;
+      case 4: X.nbtuba = 7; break;
+      case 5: X.grid = !A.grid; break;
+      case 6: X.nested = !nested; X.fr = 1.75; break;
+      case 7: X.fr = 1.75; X.nbsimu = 2; break;
+      default: break;
+    }
+    H.runA = [A] { return tb_exec(A); };
+    if (ix[2] <= 7) H.runX = [X] { return tb_exec(X); };
+    else
+    {
+      int k = ix[2] == 8 ? SIM_FFT : ix[2] == 9 ? SIM_GIBBS : SIM_PGS_COND;
+      H.runX = [k] { std::vector<std::vector<double>> R; int e = run_sim(k, 777, 2, R, 3); return ser(e, R); };
+    }
+    H.descA = std::string("simtub NC, ") + (nested ? "SPHERICAL + " : "") + TT[it].name + " (range 2), " + (A.grid ? "3x3 grid" : "11 points") + ", nbtuba 5, seed 12345";
+    H.descX = tb_xname[ix[2]];
+    H.key = std::string("history:simtub:") + TT[it].name + (nested ? ":nested" : "");  // nested: the first band of the structure is not band 0
+    H.valid = true;
+  }
+  else
+  {
+    // ---- block 1: every simulator of the repro part as subject; interveners = the same simulator with another
+    // range / sill / auxiliary inputs, and three other simulators
+    if (ix[1] >= NSIM || ix[2] >= 6 || ix[3] != 0) return H;
+    int kind = ix[1];
+    int xvar = ix[2] < 3 ? ix[2] + 1 : 0;
+    int xkind = ix[2] < 3 ? kind : ix[2] == 3 ? SIM_TUB_NC_PTS : ix[2] == 4 ? SIM_PGS_COND : SIM_GIBBS_MM;
+    if (ix[2] >= 3 && xkind == kind) xkind = SIM_FFT;
+    H.runA = [kind] { std::vector<std::vector<double>> R; int e = run_sim(kind, 12345, 2, R, 0); return ser(e, R); };
+    H.runX = [xkind, xvar] { std::vector<std::vector<double>> R; int e = run_sim(xkind, 4321, 2, R, xvar); return ser(e, R); };
+    H.descA = std::string(simname[kind]) + " seed=12345 nbsimu=2";
+    H.descX = std::string(simname[xkind]) + (xvar == 1 ? " with ranges x1.75" : xvar == 2 ? " with sills x2.5" : xvar == 3 ? " with other auxiliary inputs" : "");
+    H.key = std::string("history:") + simname[kind];
+    H.valid = true;
+  }
+  return H;
+}
+static Space hist_space()
+{
+  Space sp;
+  sp.axis("block", 2).axis("subject", 2 * (int)tb_types().size()).axis("intervener", TB_NX).axis("subject-support", 2);
+  return sp;
+}
+
+VF_PART(history)
+{
+  Space sp = hist_space();
+  for_each_case(C, sp, [&](uint64_t id, const std::vector<int>& ix) {
+    std::string kase = std::to_string(id);
+    HistCase H = hist_case(ix);
+    if (!H.valid) return;
+    if (H.skip) { C.skip(); C.outcome("skip:type-has-no-third-parameter"); return; }
+    const std::string &descA = H.descA, &descX = H.descX, &key = H.key;
+    // pristine process: A alone
+    ChildResult c0 = run_pristine({"history", kase, "0"});
+    C.eval();
+    if (!c0.clean() || c0.code != 0)
+    {
+      C.outcome("subject-crashes:" + c0.describe());
+      C.violation(key + ":crash", descA + " in a pristine process: " + c0.describe(), kase);
+      return;
+    }
+    std::string r0 = c0.data;
+    // pristine process: X ; A
+    ChildResult cX = run_pristine({"history", kase, "1"});
+    if (r0 == "no-model" || r0.rfind("0#", 0) != 0 || r0.rfind("0#0#", 0) == 0)
+    {
+      // the library refuses this subject (model not constructible / simulator returns an error): nothing to compare,
+      // but the refusal itself must not depend on the history either
+      C.outcome("subject-refused-by-the-library");
+      if (cX.clean() && cX.data != r0) C.violation(key, descA + ": refused when run alone but not after [" + descX + "] (or conversely)", kase);
+      C.skip();
+      return;
+    }
+    if (!cX.clean() || cX.code != 0)
+    {
+      C.outcome("sequence-crashes:" + cX.describe());
+      C.violation(key + ":crash", "[" + descX + "] then [" + descA + "] in a pristine process: " + cX.describe(), kase);
+      return;
+    }
+    std::string r1 = H.runA();
+    (void)H.runX();
+    std::string r2 = H.runA();
+    C.nontrivial(id);
+    bool ok = true;
+    if (cX.data != r0) { ok = false; C.violation(key, descA + ": the result after [" + descX + "] (both in one pristine process) differs from the result of the same call alone in a pristine process", kase); }
+    if (r2 != r1) { ok = false; C.violation(key, descA + ": the second run differs from the first one when [" + descX + "] is executed in between", kase); }
+    if (r1 != r0) { ok = false; C.violation(key, descA + ": the result in this process (which has run other simulations before) differs from the result in a pristine process", kase); }
+    C.outcome(ok ? "history-independent" : "HISTORY-DEPENDENT");
+    if (id % 97 == 0) C.sample("{\"id\":" + kase + ",\"subject\":" + jstr(descA) + ",\"intervening\":" + jstr(descX) + ",\"identical\":" + (ok ? "true" : "false") + "}");
   });
 }
 
@@ -718,7 +919,41 @@ VF_PART(pgs_facies)
   });
 }
 
+// "--pristine repro <kind> <seed> <nbsimu> --fd n" | "--pristine history <case id> <0: A | 1: X;A> --fd n"
+static int pristine_main(int argc, char** argv)
+{
+  silence();
+  std::vector<std::string> a(argv + 2, argv + argc);
+  int fd = -1;
+  if (a.size() >= 2 && a[a.size() - 2] == "--fd") { fd = atoi(a.back().c_str()); a.resize(a.size() - 2); }
+  if (fd < 0 || a.empty()) return 92;
+  std::string out;
+  if (a[0] == "repro" && a.size() == 4)
+  {
+    std::vector<std::vector<double>> R;
+    int err = run_sim(atoi(a[1].c_str()), atoi(a[2].c_str()), atoi(a[3].c_str()), R);
+    out = ser(err, R);
+  }
+  else if (a[0] == "history" && a.size() == 3)
+  {
+    Space sp = hist_space();
+    uint64_t id = strtoull(a[1].c_str(), nullptr, 10);
+    if (id >= sp.size()) return 92;
+    HistCase H = hist_case(sp.decode(id));
+    if (!H.valid) return 92;
+    if (a[2] == "1") (void)H.runX();
+    out = H.runA();
+  }
+  else return 92;
+  child_write(fd, out);
+  return 0;
+}
+
 int main(int argc, char** argv)
 {
+  if (argc > 1 && std::string(argv[1]) == "--pristine") return pristine_main(argc, argv);
+  char buf[4096];
+  ssize_t n = readlink("/proc/self/exe", buf, sizeof buf - 1);
+  g_exe = n > 0 ? std::string(buf, (size_t)n) : std::string(argv[0]);
   return run_main(argc, argv, [](Ctx&) { silence(); });
 }
